@@ -126,21 +126,40 @@ def rand_tree(rng, depth):
     return ("un", rng.choice(list(UN)), rand_tree(rng, depth - 1))
 
 
-def float_twin(text):
-    """the same expression over float operands (2 -> 2.0): evaluated first, in the same process, so that
-    any value-keyed cache or shared state filled by float arithmetic is in place when the exact expression runs"""
-    import re
-    return re.sub(r"(?<![\w.])(\d+)(?![\w.])", r"\1.0", text)
+def float_twins(t, cap=12):
+    """Warm-up expressions, evaluated first in the same process: every binary node of the tree with one or both
+    operands converted by float().  Ka simplifies an integral float back to an int, so only float(...) of a
+    non-integral operand really is a float; equal-valued floats and fractions hash alike in Python, so any
+    value-keyed cache or shared state filled by float arithmetic is in place when the exact expression runs."""
+    out = []
+
+    def walk(n):
+        if len(out) >= cap:
+            return
+        if n[0] == "bin":
+            a, b, op = ka_text(n[2]), ka_text(n[3]), BIN[n[1]]
+            out.append("(float(%s) %s %s)" % (a, op, b))
+            out.append("(%s %s float(%s))" % (a, op, b))
+            out.append("(float(%s) %s float(%s))" % (a, op, b))
+            walk(n[2])
+            walk(n[3])
+        elif n[0] == "un":
+            out.append("%s(float(%s))" % (UN[n[1]] if n[1] not in ("UNeg", "UPos") else UN[n[1]], ka_text(n[2])))
+            walk(n[2])
+    walk(t)
+    return out[:cap]
 
 
-def impl_case(text):
-    try:
-        if len(text) < 200:
-            C.observe(float_twin(text))
-    except C.CaseTimeout:
-        raise
-    except Exception:
-        pass
+def impl_case(case):
+    text, twins = case
+    if len(text) < 300:
+        for w in twins:
+            try:
+                C.observe(w)
+            except C.CaseTimeout:
+                raise
+            except Exception:
+                pass
     return C.observe(text)
 
 
@@ -187,7 +206,7 @@ def run(ctx):
         seen.add(s)
         trees.append(t)
     texts = [ka_text(t) for t in trees]
-    obs = C.run_impl(impl_case, texts, ctx["rundir"], limit=10.0)
+    obs = C.run_impl(impl_case, [(ka_text(t), float_twins(t)) for t in trees], ctx["rundir"], limit=20.0)
     model = None
     if ctx["model_ok"]:
         model = C.run_model(ctx["rundir"], "c01", IMPORTS, "fun e => show_res show_num (aeval e)",
@@ -228,7 +247,7 @@ def run(ctx):
             sig = dict(kind="wrong-value", top=t[1] if t[0] in ("bin", "un") else t[0],
                        got_kind=(got or "")[:2], exp_kind=exp[:2])
             rep.violation(sig, "C01 fails on the implementation: %s evaluates to %s, exact arithmetic gives %s" % (s, got, exp),
-                          dict(tree=t, text=s, impl=got, expected=exp, spec="denote (Coq) / Fraction oracle"))
+                          dict(tree=t, text=s, evaluated_first_in_the_same_process=float_twins(t), impl=got, expected=exp, spec="denote (Coq) / Fraction oracle"))
     rep.coverage.update(dict(
         evaluations=len(trees), distinct_nontrivial=len(nontrivial),
         rule="arithmetic trees rendered fully parenthesised; exhaustive depth<=1 over leaves %r and all operators (%d), plus %d seeded random trees of depth<=8 (operands to 1e60, zero divisors 12%%); non-trivial = has at least one operator; distinct by rendered text" % (LEAVES, n_exh, len(trees) - n_exh),
